@@ -282,8 +282,9 @@ def assume_invariants(ev, loop_no, extra):
     c = ev.frame.root().contract
     invs = (c.invariants or {}).get(loop_no, []) if c is not None else []
     from .contract import spec_eval
-    for text in invs:
-        ev.st.assume(spec_eval(ev, text, extra))
+    aux = (getattr(c, "aux_invariants", None) or {}).get(loop_no, ()) if c is not None else ()
+    for k, text in enumerate(invs):
+        ev.st.assume(spec_eval(ev, text, extra), aux="traces" if (k + 1) in aux else False)
 
 
 def _iteration(ev, node, loop_no, body_runner, after_iter, extra_fn, line):
